@@ -8,6 +8,6 @@ cp "$file" /var/tmp/mut_backup.$$
 sed -i "$expr" "$file"
 if cmp -s "$file" /var/tmp/mut_backup.$$; then echo "MUTATION DID NOT APPLY"; fi
 git diff --stat | tail -1
-/verif/bin/govc check --property "$prop" "$@" | grep -E "VIOLATION|BROKEN|KNOWN|property=" 
+/verif/bin/govc check --property "$prop" --evidence-dir /var/tmp/seed-evidence "$@" | grep -E "VIOLATION|BROKEN|KNOWN|property=" 
 cp /var/tmp/mut_backup.$$ "$file"; rm -f /var/tmp/mut_backup.$$
 git -C /repo status --short | grep -v zz_verif | head
